@@ -176,6 +176,10 @@ def siblings():
         held += [x, y]
         same("domain", x, y)
         same("domain", ~x, ~y)
+        # nucleotide sequences are attributes, not part of the canonical form
+        x.sequence, y.sequence = "NNNNNNN", "GGATCAA"
+        same("domain (different sequence attributes)", x, y)
+        x.sequence = y.sequence = None
     d = {cls: [cls("a", 5), cls("b", 6)] for cls in (bc.DomainS,)}
     a, b = d[bc.DomainS]
     for A, B in ((C1, C2), (S1, S2)):
@@ -194,7 +198,17 @@ def siblings():
     same("reaction", r1, r2)
     if rx == ry:
         bad.append("reactions of different type compare equal")
-    del held, mx, my, rx, ry, r1, r2, c1, c2, a, b, d
+    # registries are independent: clearing the registry of a base class leaves the registries of its subclasses alone
+    u1, u2 = D1("u", 4), D2("u", 4)
+    k1 = C1([u1], ["."], name="ku")
+    clear_singletons(bc.DomainS)
+    clear_singletons(bc.ComplexS)
+    try:
+        if D1("u") is not u1 or D2("u") is not u2 or C1(None, None, "ku") is not k1:
+            bad.append("clear_singletons(base class) changed what a live subclass object's name denotes")
+    except SingletonError:
+        bad.append("clear_singletons(base class) emptied the registry of a subclass whose objects are alive")
+    del held, mx, my, rx, ry, r1, r2, c1, c2, a, b, d, u1, u2, k1
     fresh()
     return {"steps": ["sibling classes"], "what": bad[:4]} if bad else None
 
